@@ -218,11 +218,15 @@ theorem next_in_range (g : Gen) (t : IntTy) (hw : 1 ≤ t.bits) (f : Form) (hty 
 
 /-! non-vacuity: the hypotheses of the period/bijection theorems are met by the real constants
     (`rng_side_conditions`); concrete evaluations of the model -/
-example : (rawStream rng 2 42).1 = [5761867088736727952, 8179765220119699510] := by decide
-example : iter (lcgStep rng) (3 + 2 ^ 2) 42 % 2 ^ 2 = iter (lcgStep rng) 3 42 % 2 ^ 2 := by decide
-example : iter (lcgStep rng) 4 42 ≠ 42 := by decide
-example : (next rng ⟨true, 32⟩ (.range 0 4) 42).2 = .ok 0 := by decide
-example : mix rng 0 = 0 ∧ mix rng 1 < 2 ^ 64 := by decide
+/-- the constants of `Rng` at the time of writing, as literals (the examples must not depend on the
+    extracted file: a legitimate change of the constants may not break them) -/
+def exampleGen : Gen := ⟨6364136223846793005, 1442695040888963407, 33, 0xff51afd7ed558ccd, 33⟩
+example : exampleGen.A % 4 = 1 ∧ exampleGen.C % 2 = 1 ∧ exampleGen.mul % 2 = 1 ∧ 32 ≤ exampleGen.sh1 ∧ 32 ≤ exampleGen.sh2 := by decide
+example : (rawStream exampleGen 2 42).1 = [5761867088736727952, 8179765220119699510] := by decide
+example : iter (lcgStep exampleGen) (3 + 2 ^ 2) 42 % 2 ^ 2 = iter (lcgStep exampleGen) 3 42 % 2 ^ 2 := by decide
+example : iter (lcgStep exampleGen) 4 42 ≠ 42 := by decide
+example : (next exampleGen ⟨true, 32⟩ (.range 0 4) 42).2 = .ok 0 := by decide
+example : mix exampleGen 0 = 0 ∧ mix exampleGen 1 < 2 ^ 64 := by decide
 
 /-! ## shuffle -/
 
